@@ -539,6 +539,12 @@ substitute_decl(CPPDeclaration::SubstDecl &subst,
   }
 
   CPPInstance *rep = new CPPInstance(*this);
+
+  // Record the replacement before descending, so that an initializer that
+  // refers back to this instance (enum { v = N * F<N-1>::v }) finds it
+  // instead of substituting this instance again, without end.
+  subst[this] = rep;
+
   CPPDeclaration *new_type =
     _type->substitute_decl(subst, current_scope, global_scope);
   rep->_type = new_type->as_type();
@@ -555,11 +561,12 @@ substitute_decl(CPPDeclaration::SubstDecl &subst,
 
   if (rep->_type == _type &&
       rep->_initializer == _initializer) {
-    delete rep;
+    // Nothing changed.  (The copy is not deleted: the initializer may have
+    // picked it up.)
     rep = this;
   }
 
-  subst.insert(SubstDecl::value_type(this, rep));
+  subst[this] = rep;
   return rep;
 }
 
